@@ -40,6 +40,11 @@ class DirectFace(Face):
             typ, _ = tlvref.dec_var(wire, 0, strict=False)
         except tlvref.TlvError:
             return False
+        form = getattr(self, 'rx_buffer', 'bytes')
+        if form == 'bytearray':
+            wire = bytearray(wire)              # a transport may hand over a mutable buffer
+        elif form == 'memoryview':
+            wire = memoryview(bytearray(wire))  # ... or a writable view on its receive buffer
         asyncio.get_running_loop().create_task(self.callback(typ, wire))
         return True
 
@@ -126,9 +131,16 @@ class StreamPeer:
         if self.reader is not None and not _eof_fed(self.reader):
             self.reader.feed_eof()
 
-    def reset(self):
+    def reset(self, kind='reset'):
+        """the connection dies with an error instead of a clean EOF: reset by peer, keep-alive time-out, abort, ..."""
+        import errno
+        exc = {'reset': ConnectionResetError('simulated reset'),
+               'timeout': TimeoutError(errno.ETIMEDOUT, 'Connection timed out (simulated)'),
+               'abort': ConnectionAbortedError('simulated abort'),
+               'pipe': BrokenPipeError(errno.EPIPE, 'Broken pipe (simulated)'),
+               'unreach': OSError(errno.EHOSTUNREACH, 'No route to host (simulated)')}[kind or 'reset']
         if self.reader is not None and self.reader.exception() is None:
-            self.reader.set_exception(ConnectionResetError('simulated reset'))
+            self.reader.set_exception(exc)
 
 
 def _eof_fed(reader):
